@@ -23,6 +23,8 @@ PRE_STRENGTHENED = {
     "C09-r2-2": "no message block was ever chosen against the stream; now blocks crafted so that stream XOR message is n, n+1, 2^256-1",
     "C20-r2-2": "the replaced compression function treated n_blocks == 0 as a no-op like the built-in one, so nothing differed; calls with zero blocks (outside the documented 'one or more') are now counted and reported",
     "C06-r3-1": "only gcc builds were run in the quick tier; the dropped volatile barrier turns into a branch under clang -O2 only; a clang -O2 build of the shipped configuration was added",
+    "C04-r4-2": "tweak_add_check was only probed with the canonical x, the other parity, x+1 and the internal key's x; now with an internal key built as Q - tG from a small-x point Q so that the tweaked key's x + p fits in 32 bytes",
+    "C18-r4-1": "the exported xdh hash functions were only passed to xdh as pointers (which dispatches to the implementation directly); they are now also called directly and compared with their definition",
     "C07-r2-2": "rewind was only called with all optional outputs present (C07 and C09); now also with none / value only / blind only and a foreign nonce",
 }
 rows = []
